@@ -117,6 +117,13 @@ func raceBases() []raceBase {
 			h.Quiesce(false)
 			return &raceEnv{h: h, w: w, q: q, busy: b, pend: p}
 		}, true},
+		{"dispatching", func(h *H) *raceEnv {
+			// the pair starts while the first job is still on its way through the dispatcher
+			w := h.NewWorker(ErrW, 2)
+			q := w.Bind(Fifo, nil)
+			j := q.Add(0, AddOpt{})
+			return &raceEnv{h: h, w: w, q: q, pend: j}
+		}, false},
 		{"batch", func(h *H) *raceEnv {
 			h.Shape = Gated
 			w := h.NewWorker(ResW, 2)
@@ -156,14 +163,25 @@ func init() {
 				if !base.full {
 					// quick tier: the pairs that involve the base state's special resource; the rest in thorough
 					special := map[string]bool{"BatchRead": true, "AddAll": true, "Restart": true, "Stop": true, "StatusCtx": true, "Add": true, "Counts": true, "Purge": true}
+					if base.name == "dispatching" {
+						special = map[string]bool{"JobClose": true, "Status": true, "WaitResult": true, "Purge": true, "Add": true, "Counts": true, "PauseResume": true}
+					}
 					if !(special[a.name] && special[b.name]) {
+						only = "thorough"
+					}
+				}
+				quick := 1
+				if base.name == "dispatching" {
+					// the overlap of a call with the dispatch of the same job needs two deviations
+					quick = 2
+					if !(a.name == "JobClose" && (b.name == "JobClose" || b.name == "Purge")) && !(a.name == "Status" && b.name == "JobClose") && !(a.name == "WaitResult" && b.name == "JobClose") {
 						only = "thorough"
 					}
 				}
 				Register(&Scenario{
 					Name:  name("race/%s/%s+%s", base.name, a.name, b.name),
 					Props: []string{"C19"}, Race: true, Only: only,
-					Mode:  "NB", Quick: 1, Thorough: 2, Shards: 1,
+					Mode:  "NB", Quick: quick, Thorough: 2, Shards: 1,
 					Body: func(h *H) {
 						h.NoRest = true
 						e := base.setup(h)
